@@ -129,7 +129,14 @@ def store_snapshot(project: Project) -> Tuple[Dict[str, list], bytes]:
             deps = set(d.as_posix() for d in (page.dependencies.dependencies or {}))
             deps |= set(cfg.get_fileid(a.path).as_posix() for a in page.static_assets)
             snap[k.as_posix()] = [src.as_posix(), hashlib.sha1(blob.encode()).hexdigest()[:16], sorted(deps)]
-        raw = pickle.dumps([(k, db._parsed[k][0].ast, db._parsed[k][0].source, db._parsed[k][1], [diag_key(d) for d in db._parsed[k][2]])
+        def rest(page):
+            # every other field of the stored Page in a canonical form (assets load their bytes lazily: identify them by file)
+            return (page.fileid, page.output_filename, page.blake2b,
+                    sorted((a.fileid.as_posix(), a.key, bool(a.upload)) for a in page.static_assets),
+                    sorted((str(k2), str(v2)) for k2, v2 in (page.dependencies.dependencies or {}).items()),
+                    len(page.pending_tasks), repr(page.facets), page.category)
+        raw = pickle.dumps([(k, db._parsed[k][0].ast, db._parsed[k][0].source, db._parsed[k][1], [diag_key(d) for d in db._parsed[k][2]],
+                             rest(db._parsed[k][0]))
                             for k in sorted(db._parsed)])
     return snap, raw
 
